@@ -100,6 +100,7 @@ class Kernel:
         self._current = None
         self._name_counts = {}
         self.probes = {}
+        self.markers = []  # (task name, channel) of every -2 error marker sent
         self.harness_error = None
 
     # ------------------------------------------------------------------ helpers
@@ -356,7 +357,12 @@ class SimConnection:
             raise OSError("connection is read-only")
         # pickling happens in the sender, before anything is written (as in multiprocessing)
         payload = pickle.dumps(obj, protocol=pickle.HIGHEST_PROTOCOL)
-        current_kernel().ch_send(self._ch, payload, "send")
+        k = current_kernel()
+        if obj == -2 and isinstance(obj, int):
+            who = k.current_task().name
+            k.markers.append((who, self._ch.cid))
+            k.probe("error_marker_sent_by_" + ("worker" if who.startswith("worker") else who))
+        k.ch_send(self._ch, payload, "send")
 
     def send_bytes(self, buf, offset=0, size=None):
         if not self.writable:
